@@ -25,7 +25,7 @@ MACROS = {
     'string2': r"'([^\n\r\f\\']|\\{nl}|{escape})*'",
     'invalid1': r'\"([^\n\r\f\\"]|\\{nl}|{escape})*',
     'invalid2': r"\'([^\n\r\f\\']|\\{nl}|{escape})*",
-    'comment': r'\/\*[^*]*\*+([^/][^*]*\*+)*\/',
+    'comment': r'\/\*[^*]*\*+([^/*][^*]*\*+)*\/',
     'ident': r'[-]{0,2}{nmstart}{nmchar}*',
     'name': r'{nmchar}+',
     # TODO???
